@@ -130,6 +130,15 @@ let handle toks =
                   (show_res_store merged) (show_res_store direct)
             | _ -> "BAD")
        | _ -> "BAD")
+  | "merge_tag" :: rest ->
+      (match ints rest with
+       | ndep :: r ->
+           let groups, _ = parse_groups r in
+           (match merge_where (nat_of_int ndep) groups with
+            | Ok None -> "none"
+            | Ok (Some _) -> "tagged"
+            | Err e -> Printf.sprintf "err %d" (int_of_z e))
+       | _ -> "BAD")
   | "rechunk" :: rest ->
       (match ints rest with
        | k :: r -> let cs, _ = parse_chunks k r in show_chunks (rechunk_stream cs)
